@@ -93,6 +93,7 @@ def float_(k):
 
 def h_add_read(strategy, gene_level, k):
     def fn(g):
+        g.batch = True
         shims.CURRENT["g"] = g if g.symbolic else None
         mk = lrc.create_gene_counter if gene_level else lrc.create_transcript_counter
         c = mk(fresh_prefix("add"), strategy)
@@ -101,26 +102,42 @@ def h_add_read(strategy, gene_level, k):
             pre[f] = g.real("pre_" + f, 0)
             c.feature_counter[f].data = {0: pre[f]}
         c.all_features = set(FEATS)
-        conf_bits = g.choice("confirmed_subset", 8)
+        conf_bits = 6 * g.choice("confirmed_subset", 2)     # none, or {F2, F3}
         c.confirmed_features = {f for i, f in enumerate(FEATS) if conf_bits >> i & 1}
         conf0 = set(c.confirmed_features)
         n_amb, n_tpm, n_na = g.int("ambiguous_reads", 0), g.int("reads_for_tpm", 0), g.int("not_assigned", 0)
         c.ambiguous_reads, c.reads_for_tpm, c.not_assigned_reads = n_amb, n_tpm, n_na
-        t = SymEnum(g, RT, "type", allowed=[m for m in RT if m != RT.suspended])
-        picks = [g.choice("feature%d" % i, 3) for i in range(k)]
-        feats = [FEATS[p] for p in picks]
+        tt = SymEnum(g, RT, "type", allowed=[m for m in RT if m != RT.suspended])
+        tg = SymEnum(g, RT, "gene_type", allowed=[m for m in RT if m != RT.suspended])
+        # relation established by ReadAssignment.__init__: the gene-level type is the transcript-level one, except
+        # that an (inconsistent_)ambiguous read whose isoforms share one gene is unique / inconsistent for the gene
+        g.add(OR(tg == tt, AND(tt == RT.ambiguous, tg == RT.unique), AND(tt == RT.inconsistent_ambiguous, tg == RT.inconsistent)))
+        tpicks = [g.choice("transcript%d" % i, 3) for i in range(k)]
+        gpicks = [g.choice("gene%d" % i, 2) for i in range(k)]
+        for i in range(k):
+            for j in range(i):
+                if tpicks[i] == tpicks[j] and gpicks[i] != gpicks[j]:
+                    g.assume(False)
+        t = tg if gene_level else tt
+        feats = [FEATS[p] for p in (gpicks if gene_level else tpicks)]
         distinct = sorted(set(feats))
         nd = len(distinct)
         if nd != 1:
             g.assume(NOT(t.is_unique()))
+        if len(set(tpicks)) != 1:
+            g.assume(NOT(tt.is_unique()))
+        if len(set(gpicks)) != 1:
+            g.assume(NOT(tg.is_unique()))
+        if len(set(gpicks)) > 1:
+            g.assume(AND(NOT(AND(tt == RT.ambiguous, tg == RT.unique)), NOT(AND(tt == RT.inconsistent_ambiguous, tg == RT.inconsistent))))
         spliced = bool(g.bool("corrected_alignment_spliced"))
         mono_ref = bool(g.bool("reference_transcript_is_monoexonic"))
-        matches = [Obj(assigned_gene=f, assigned_transcript=f) for f in feats]
+        matches = [Obj(assigned_gene=FEATS[gp], assigned_transcript=FEATS[tp]) for gp, tp in zip(gpicks, tpicks)]
         gi = Obj(all_isoforms_introns={f: ([] if mono_ref else [(10, 20)]) for f in FEATS})
-        ra = Obj(read_id="r", assignment_type=t, gene_assignment_type=t, isoform_matches=matches, read_group="NA",
+        ra = Obj(read_id="r", assignment_type=tt, gene_assignment_type=tg, isoform_matches=matches, read_group="NA",
                  gene_info=gi, corrected_exons=[(1, 9), (21, 30)] if spliced else [(1, 30)])
         call(g, c.add_read_info, ra)
-        unassigned = OR(t.is_unassigned(), k == 0)
+        unassigned = OR(tt.is_unassigned(), k == 0)
         for f in FEATS:
             post = c.feature_counter[f].get(0)
             w = doc_weight(strategy, t, nd) if f in distinct else 0
@@ -430,7 +447,7 @@ def instances(tier, seed):
                                  "src.dataset_processor:DatasetProcessor.merge_assignments", "src.dataset_processor:DatasetProcessor.merge_transcript_models"],
                                 "%d chromosomes, symbolic per-chromosome counts and stats" % n, weight=5 * n))
     from vlib import crosshair_lane
-    out.append(Instance("merge_names[crosshair]", run=crosshair_lane.lane_run("_merge_names", merge_name_contract(), 40 if q else 300),
+    out.append(Instance("merge_names[crosshair]", run=crosshair_lane.lane_run("_merge_names", merge_name_contract(), 120 if q else 600),
                         funcs=["src.file_utils:merge_file_list", "src.common:rreplace"], kind="crosshair",
                         bounds="CrossHair: label <= 3 chars, chromosome id <= 2 chars (any characters but '/'), every output suffix of SampleData/GFFPrinter; "
                         "bug-hunting strength unless 'Confirmed over all paths'", weight=1000))
